@@ -9,6 +9,7 @@ extern "C" void h_buf(void) {
     int w = (int)t.width(), h = (int)t.height();
     int x, y; vp_coord(w, h, x, y);
     typename SRC::view_t::value_type p; vp_fill(&p, sizeof p);
+    vp_assume(p == p);   // float channels: not a NaN (a NaN never compares equal to what is read back)
     typename SRC::view_t::value_type r = t(x, y);
     int sel = vp_param(0);   // which accessor (concrete per query); 0 = all of them
     if (sel == 0 || sel == 1) t(x, y) = p;
